@@ -25,6 +25,10 @@ CLAIMED = {
             'bounded, solver-complete inside the bound: every missing-mask for n<=4, every binary truth vector x strict score order for n<=3 (n=4 partly in quick, n<=5 completely in thorough), all score values within the order; AUC = Mann-Whitney count identity',
             'exact reals except in the IEEE obligations; no score ties; invariances of AUC are consequences of the Mann-Whitney identity; statistic tables not encoded',
             'DESIGN.md 5/C15'),
+    'C08': ('CBMC bit-precise (SAT) on LDAPrediction over a symbolic model with the dot-product kernels havoced; CBMC->real-arithmetic VC->z3 for LDA bookkeeping, the discriminant formula and the one-vs-rest ROC summaries, label vectors enumerated by the driver',
+            'bounded, solver-complete inside the bound: memory safety, arg-max and label range of the prediction for labels from 0 and from 1 (nclass<=3, features<=2); priors/means/nclass for every label vector with >=2 objects per class up to n=5; AUC=1 for perfect predictions n<=4',
+            'kernels havoced (over-approximation) in the index obligations; eigen-decomposition and pseudo-inverse replaced by contract stubs; exact reals for the value obligations; statistical clause (well-separated classes) and affine invariance not decided',
+            'DESIGN.md 5/C08'),
 }
 NA = {
     'C16': 'behaviour lives inside SQLite and libc decimal formatting (FFI + file I/O); nothing of it is source in /repo that could be executed symbolically - an encoding would verify a hand-written SQL fake, not the code',
